@@ -29,6 +29,7 @@ import (
 	"io"
 	"sort"
 	"strings"
+	"sync"
 	"time"
 
 	tinksubtle "github.com/google/tink/go/streamingaead/subtle"
@@ -173,23 +174,43 @@ type pstEnv struct {
 	caps partstore.Capabilities
 	stop func()
 	// trips: would-be deadlocks recorded by the pipe guards of the bottom stores
-	trips []string
+	trips  []string
+	tripMu sync.Mutex
 }
 
 // tripsSince returns the guard events recorded since mark (= len(e.trips) before the call).
-func (e *pstEnv) tripsSince(mark int) []string { return e.trips[mark:] }
+func (e *pstEnv) tripsSince(mark int) []string {
+	e.tripMu.Lock()
+	defer e.tripMu.Unlock()
+	return append([]string(nil), e.trips[mark:]...)
+}
+
+// tripMark is the position to pass to tripsSince later.
+func (e *pstEnv) tripMark() int {
+	e.tripMu.Lock()
+	defer e.tripMu.Unlock()
+	return len(e.trips)
+}
 
 // pstPipeGuard wraps a bottom (shard) store. When the wrapped store's PutPart
 // returns an error although its input is the read end of an io.Pipe that nobody
 // has closed, the middleware goroutine feeding that pipe (erasure coding writes
-// shards and heal shards this way) blocks forever in PipeWriter.Write: nothing
-// reads or closes the pipe any more. The guard records the event and closes the
-// read end with the error, so that the run can go on and report the would-be
-// deadlock instead of hanging in it.
+// shards and heal shards this way) blocks forever in PipeWriter.Write unless the
+// caller of PutPart closes the read end: nothing reads the pipe any more. The
+// guard cannot see what the caller does after PutPart returned, so it leaves a
+// probe behind that wakes at the next quiescent point (1 ns of simulated time:
+// the fake clock only advances once every goroutine of the bubble is durably
+// blocked, and between the failing return and the caller's own close there is
+// no yield) and reads from the pipe: an error means somebody closed it (fine),
+// data means a writer is feeding a pipe that has lost its reader - the would-be
+// deadlock. The probe records it and closes the read end with the error, so
+// that the run can go on and report the deadlock instead of hanging in it.
 type pstPipeGuard struct {
 	partstore.PartStore
-	name  string
-	trips *[]string
+	name    string
+	trips   *[]string
+	mu      *sync.Mutex
+	cleanup func(func())
 }
 
 func (p *pstPipeGuard) Capabilities() partstore.Capabilities {
@@ -204,9 +225,20 @@ func (p *pstPipeGuard) PutPart(ctx context.Context, tx database.Tx, id partstore
 	tr := &pstErrTrackingReader{r: r}
 	err := p.PartStore.PutPart(ctx, tx, id, tr)
 	if err != nil && tr.err == nil {
-		// the store failed on its own: the writing side does not know and nobody will read on
-		*p.trips = append(*p.trips, fmt.Sprintf("%s: PutPart failed with %q and left its input pipe open", p.name, err.Error()))
-		_ = pr.CloseWithError(err)
+		// the store failed on its own: unless the caller closes the pipe, nobody will read on
+		msg := fmt.Sprintf("%s: PutPart failed with %q and left its input pipe open", p.name, err.Error())
+		perr := err
+		go func() {
+			time.Sleep(time.Nanosecond)
+			var b [1]byte
+			if n, _ := pr.Read(b[:]); n > 0 {
+				p.mu.Lock()
+				*p.trips = append(*p.trips, msg)
+				p.mu.Unlock()
+				_ = pr.CloseWithError(perr)
+			}
+		}()
+		p.cleanup(func() { _ = pr.CloseWithError(perr) })
 	}
 	return err
 }
@@ -245,7 +277,7 @@ func pstStartStack(rc *RunCtx, spec world.Spec) (*pstEnv, error) {
 	sort.Strings(names)
 	for _, name := range names {
 		b := w.Bottoms[name]
-		b.Inner = &pstPipeGuard{PartStore: b.Inner, name: name, trips: &env.trips}
+		b.Inner = &pstPipeGuard{PartStore: b.Inner, name: name, trips: &env.trips, mu: &env.tripMu, cleanup: rc.OnCleanup}
 	}
 	if err := top.Start(ctx); err != nil {
 		return nil, fmt.Errorf("start part store: %w", err)
@@ -978,7 +1010,7 @@ func runC15(rc *RunCtx) (*Violation, error) {
 		want, live := model[i]
 		pend := pending()
 		before := bottomGets()
-		mark := len(env.trips)
+		mark := env.tripMark()
 		got, err := env.readAll(mode, id, sizes)
 		mode = env.getMode(mode)
 		if t := env.tripsSince(mark); len(t) > 0 {
@@ -2204,7 +2236,7 @@ func runC17(rc *RunCtx) (*Violation, error) {
 				mode = []int{pstTxRO, pstTxStream, pstTxFree}[g.Int(3)]
 				verifyHeal = false
 			}
-			mark := len(env.trips)
+			mark := env.tripMark()
 			got, err := env.readAll(mode, idA, pstReadSchedule(g))
 			hangCheck(mark, env.getMode(mode))
 			tripped := len(env.tripsSince(mark)) > 0
@@ -2247,7 +2279,7 @@ func runC17(rc *RunCtx) (*Violation, error) {
 					dropped = append(dropped, i)
 				}
 				healChecks++
-				mark := len(env.trips)
+				mark := env.tripMark()
 				got2, err2 := env.readAll(pstTxRW, idA, nil)
 				hangCheck(mark, pstTxRW)
 				healed = "healed"
@@ -2394,7 +2426,7 @@ func runC17(rc *RunCtx) (*Violation, error) {
 				rc.S.Sleep(500 * time.Microsecond)
 				werr = env.put(pstTxRW, idB, seams.NewBody(foreignContent))
 			})
-			mark := len(env.trips)
+			mark := env.tripMark()
 			mode := []int{pstTxRO, pstTxStream}[g.Int(2)]
 			got, err := env.readAll(mode, idA, nil)
 			slow.Mutate = nil
